@@ -135,6 +135,7 @@ func c07WriterTable(c *Ctx) map[string]string {
 
 func runC07(c *Ctx) {
 	defer c07EveryCommentStringParsed(c, "C07-R2")
+	defer c07OwnCommentsOnly(c, "C07-R4")
 	defer c07ServersKnownAfterDiscovery(c)
 	p := c.P
 	c.Rule("C07-R1", "writer/reader agreement on the dynamic type of Comment.Value per comment Type", 20)
@@ -1280,4 +1281,97 @@ func selOrIdent(e ast.Expr) *ast.Ident {
 		return x.Sel
 	}
 	return nil
+}
+
+// c07OwnCommentsOnly: a control comment speaks about the rule it is attached
+// to. Inside internal/checks the comments of a rule are read only from the rule
+// being checked: `<x>.Comments` is rooted in the `entry` parameter of a Check
+// method, or in a parser.Rule / discovery.Entry parameter that every caller
+// fills from that entry. A check that looks at the comments of the *other*
+// entries (to skip "opted out" candidates, say) lets a comment on one rule
+// remove a problem reported for another.
+func c07OwnCommentsOnly(c *Ctx, R string) {
+	p := c.P
+	chk := p.Pkg("internal/checks")
+	if chk == nil {
+		return
+	}
+	info := chk.TypesInfo
+	n := 0
+	// isOwn(fi, obj): obj (a variable of fi) stands for the entry under check / its rule
+	var isOwn func(fi *FuncInfo, o types.Object, depth int) bool
+	isOwn = func(fi *FuncInfo, o types.Object, depth int) bool {
+		if o == nil || depth > 3 {
+			return false
+		}
+		sig := fi.Obj.Type().(*types.Signature)
+		idx := -1
+		for i := 0; i < sig.Params().Len(); i++ {
+			if types.Object(sig.Params().At(i)) == o {
+				idx = i
+			}
+		}
+		if idx < 0 {
+			// a local: fine when it is defined once from an own value (`rule := entry.Rule`)
+			var def ast.Expr
+			defs := 0
+			ast.Inspect(fi.Decl.Body, func(nd ast.Node) bool {
+				if as, ok := nd.(*ast.AssignStmt); ok && len(as.Lhs) == len(as.Rhs) {
+					for i, l := range as.Lhs {
+						if objOf(info, l) == o {
+							def = as.Rhs[i]
+							defs++
+						}
+					}
+				}
+				return true
+			})
+			if defs == 1 {
+				if root, _, ok := accessPath(info, def); ok && root != o {
+					return isOwn(fi, root, depth+1)
+				}
+			}
+			return false
+		}
+		if fi.Obj.Name() == "Check" && fi.Decl.Recv != nil && typeQName(o.Type()) == "internal/discovery.Entry" {
+			return true // the entry parameter of a Check method
+		}
+		callers := p.CallersOf(fi.Obj)
+		if len(callers) == 0 {
+			return false
+		}
+		for _, cs := range callers {
+			if p.IsTestFile(cs.Call.Pos()) {
+				continue
+			}
+			if idx >= len(cs.Call.Args) {
+				return false
+			}
+			root, _, ok := accessPath(cs.Caller.Pkg.TypesInfo, cs.Call.Args[idx])
+			if !ok || !isOwn(cs.Caller, root, depth+1) {
+				return false
+			}
+		}
+		return true
+	}
+	for _, fi := range p.AllFuncs() {
+		if fi.Pkg != chk || fi.Decl.Body == nil || p.IsTestFile(fi.Decl.Pos()) {
+			continue
+		}
+		seq := 0
+		ast.Inspect(fi.Decl.Body, func(nd ast.Node) bool {
+			sel, ok := nd.(*ast.SelectorExpr)
+			if !ok || sel.Sel.Name != "Comments" || fieldOwner(info, sel) != "internal/parser.Rule" {
+				return true
+			}
+			n++
+			seq++
+			root, _, okPath := accessPath(info, sel)
+			own := okPath && isOwn(fi, root, 0)
+			c.Check(own, R, strings.TrimPrefix(fi.Name, "internal/checks.")+":comments read are those of the rule under check#"+itoa(seq), sel.Pos(), "rooted in the entry parameter",
+				"`"+exprStr(sel)+"` is not (only) the comment list of the rule being checked: a `# pint disable …` or `# pint rule/set …` comment on one rule then changes what is reported for another rule")
+			return true
+		})
+	}
+	c.Check(n >= 5, R, "reads of rule comments in internal/checks enumerated", token.NoPos, itoa(n), "fewer than 5")
 }
